@@ -2,13 +2,18 @@ package props
 
 import (
 	"fmt"
+	"strings"
 	"testing"
+	"time"
+
+	"github.com/dgrr/http2"
 
 	"pgregory.net/rapid"
 
 	"verif/harness/peer"
 	"verif/harness/rawframe"
 	"verif/harness/refhpack"
+	"verif/harness/speer"
 )
 
 // C14 — receivers hand flow-control credit back so a conforming sender never starves.
@@ -349,4 +354,229 @@ func TestC14(t *testing.T) {
 		"server receiving: 1..5 uploads (sizes up to 200000, chunk 1..16128, padding 0..255 per frame which counts against the window, empty frames, 1..3 interleaved), some ending in a stream error (body over MaxRequestBodySize with further frames in flight, content-length mismatch, peer RST mid-body), the list repeated 1..20 times or, in long cases, until 2.2 connection windows (65535+4MiB each) have been sent on the one connection; the sender is a model that sends only when its ledger (from the server's SETTINGS and WINDOW_UPDATEs) allows and otherwise waits for quiescence. Oracle: no WINDOW_UPDATE of 0, no window above 2^31-1; at quiescence a sender that still has octets for a stream that is open at the server can send (else: starved; a cumulative leak shows as starvation in the long cases). Non-trivial = more than two connection windows moved with at least one errored stream, or padded frames; distinct by case hash.")
 	defer s.finish()
 	runLane(s, Lane[c14Case]{Name: "server", Journal: true, Quick: 800, Thor: 100000, Gen: c14Gen, Run: c14Run})
+	runLane(s, Lane[c14CCase]{Name: "client", Journal: true, Quick: 96, Thor: 20000, Gen: c14CGen, Run: c14CRun})
+}
+
+// ---- client receiving -------------------------------------------------------
+
+type c14Down struct {
+	Kind  string `json:"kind"` // ok, abandoned (the caller times out first; the server sends the body anyway, as if it had not seen the RST_STREAM yet)
+	Size  int    `json:"size"`
+	Chunk int    `json:"chunk"`
+	Pad   int    `json:"pad,omitempty"`
+	Empty bool   `json:"empty,omitempty"` // padded-but-empty DATA frames in between
+}
+
+type c14CCase struct {
+	Downs  []c14Down `json:"downs"`
+	Repeat int       `json:"repeat"`
+}
+
+const c14CTimeout = 150 * time.Millisecond
+
+func c14CRun(c c14CCase) Outcome {
+	env, err := speer.NewEnv(http2.ClientOpts{PingInterval: time.Hour, MaxResponseTime: c14CTimeout})
+	if err != nil {
+		return Outcome{Inconcl: "cannot set the client up: " + err.Error()}
+	}
+	defer env.Close()
+	sc := env.Conn(0)
+	if sc == nil {
+		return Outcome{Inconcl: "no connection"}
+	}
+	l := &c14Ledger{conn: 65535, init: 65535, stream: map[uint32]int64{}}
+	absorb := func() {
+		evs := sc.EventsCopy()
+		for _, e := range evs[l.evIdx:] {
+			switch e.Kind {
+			case "settings":
+				for _, s := range e.Settings {
+					if s[0] == 4 {
+						d := int64(s[1]) - l.init
+						l.init = int64(s[1])
+						for id := range l.stream {
+							l.stream[id] += d
+						}
+					}
+				}
+			case "window":
+				if e.Incr == 0 && l.bad == "" {
+					l.bad = fmt.Sprintf("WINDOW_UPDATE with an increment of 0 on stream %d", e.Stream)
+				}
+				if e.Stream == 0 {
+					l.conn += int64(e.Incr)
+					l.credits += int64(e.Incr)
+					if l.conn > 1<<31-1 && l.bad == "" {
+						l.bad = fmt.Sprintf("connection window pushed to %d", l.conn)
+					}
+				} else if _, ok := l.stream[e.Stream]; ok {
+					l.stream[e.Stream] += int64(e.Incr)
+					if l.stream[e.Stream] > 1<<31-1 && l.bad == "" {
+						l.bad = fmt.Sprintf("window of stream %d pushed to %d", e.Stream, l.stream[e.Stream])
+					}
+				}
+			}
+		}
+		l.evIdx = len(evs)
+	}
+	if ok, d := env.Quiesce(); !ok {
+		return Outcome{Inconcl: "no quiescence at the start: " + d}
+	}
+	absorb()
+	startConn := l.conn
+	var sentTotal int64
+	abandoned := 0
+	padded := false
+	seq := 0
+	for rep := 0; rep < c.Repeat; rep++ {
+		for _, dn := range c.Downs {
+			seq++
+			tag := fmt.Sprintf("d%d", seq)
+			call := env.Do(speer.ReqSpec{Tag: tag, Method: "GET", Path: "/" + tag})
+			if ok, d := env.Quiesce(); !ok {
+				return Outcome{Inconcl: "no quiescence after the request: " + d}
+			}
+			var id uint32
+			for _, e := range sc.EventsCopy() {
+				if e.Kind == "headers" {
+					for _, f := range e.Fields {
+						if f.Name == ":path" && peer.TagOfURI(f.Value) == tag {
+							id = e.Stream
+						}
+					}
+				}
+			}
+			if id == 0 {
+				if call.Finished() && call.Err != nil {
+					return fail("request-failed", "request %s failed before reaching the server: %v (after %d octets downloaded, %d abandoned streams)", tag, call.Err, sentTotal, abandoned)
+				}
+				return Outcome{Inconcl: "request " + tag + " did not reach the server"}
+			}
+			absorb()
+			l.stream[id] = l.init
+			if dn.Kind == "abandoned" {
+				// wait for the caller to give up (its MaxResponseTime); a state we wait for, not an oracle
+				dl := time.Now().Add(3 * time.Second)
+				for !call.Finished() && time.Now().Before(dl) {
+					time.Sleep(200 * time.Microsecond)
+				}
+				if !call.Finished() {
+					return Outcome{Inconcl: "the caller did not time out"}
+				}
+				abandoned++
+			}
+			blk := sc.EncodeBlock(nil, []peer.FieldSpec{{F: refhpack.Field{Name: ":status", Value: "200"}, R: refhpack.Rep{Kind: 0}}, {F: refhpack.Field{Name: "x-tag", Value: tag}, R: refhpack.Rep{Kind: 1}}})
+			_ = sc.Write(peer.SplitBlock(id, blk, nil, false, 0, false, 0, false, 0)[0])
+			rest := peer.BodyFor(tag, dn.Size)
+			k := 0
+			for len(rest) > 0 {
+				n := dn.Chunk
+				if n > len(rest) {
+					n = len(rest)
+				}
+				if dn.Empty && k%3 == 1 {
+					n = 0
+				}
+				k++
+				payload := rest[:n]
+				var fl byte
+				cost := int64(n)
+				if dn.Pad > 0 {
+					fl |= rawframe.FlagPadded
+					payload = rawframe.Padded(payload, dn.Pad-1, 0)
+					cost = int64(len(payload))
+					padded = true
+				}
+				if n == len(rest) && n > 0 {
+					fl |= rawframe.FlagEndStream
+				}
+				for cost > 0 && (l.conn < cost || l.stream[id] < cost) {
+					// blocked: let the receiver catch up and look for credit
+					if ok, d := env.Quiesce(); !ok {
+						return Outcome{Inconcl: "no quiescence while blocked: " + d}
+					}
+					before := l.conn + l.stream[id]
+					absorb()
+					if l.bad != "" {
+						return fail("bad-window-update", "%s", l.bad)
+					}
+					rst := false
+					for _, e := range sc.EventsCopy() {
+						if e.Kind == "rst" && e.Stream == id {
+							rst = true
+						}
+					}
+					if rst && dn.Kind == "abandoned" {
+						// we have now seen the client's RST_STREAM: stop sending on this stream
+						rest = nil
+						cost = 0
+						break
+					}
+					if l.conn+l.stream[id] == before && (l.conn < cost || l.stream[id] < cost) {
+						return fail("starved", "download %s on stream %d (kind %s) needs %d octets of window: stream window %d, connection window %d; the client is quiescent after %d octets (%d streams abandoned by their callers) and has returned %d octets of connection credit in total (initial connection window %d)", tag, id, dn.Kind, cost, l.stream[id], l.conn, sentTotal, abandoned, l.credits, startConn)
+					}
+				}
+				if rest == nil {
+					break
+				}
+				_ = sc.Write(rawframe.Append(nil, rawframe.Data, fl, id, payload))
+				l.conn -= cost
+				l.stream[id] -= cost
+				sentTotal += cost
+				rest = rest[n:]
+			}
+			sc.StreamDone(id)
+			if ok, d := env.Quiesce(); !ok {
+				return Outcome{Inconcl: "no quiescence after the download: " + d}
+			}
+			absorb()
+			if l.bad != "" {
+				return fail("bad-window-update", "%s", l.bad)
+			}
+			if dn.Kind == "ok" {
+				if call.Finished() && call.Err != nil && strings.Contains(call.Err.Error(), "timed out") {
+					return Outcome{Inconcl: "a download that was not meant to be abandoned hit MaxResponseTime (machine too slow for the 150 ms timer)"}
+				}
+				if !call.Finished() || call.Err != nil || string(call.Body) != string(peer.BodyFor(tag, dn.Size)) {
+					return fail("download", "download %s: finished=%v err=%v body=%d bytes (want %d)", tag, call.Finished(), call.Err, len(call.Body), dn.Size)
+				}
+			}
+		}
+	}
+	cls := []string{}
+	if abandoned > 0 {
+		cls = append(cls, "abandoned")
+	}
+	if padded {
+		cls = append(cls, "padded")
+	}
+	if sentTotal > 2*startConn {
+		cls = append(cls, "over-2-windows")
+	}
+	return Outcome{NonTrivial: (sentTotal > 2*startConn && abandoned > 0) || padded, Classes: cls}
+}
+
+func c14CGen(t *rapid.T) c14CCase {
+	var c c14CCase
+	n := rapid.IntRange(1, 4).Draw(t, "n")
+	total := 0
+	for i := 0; i < n; i++ {
+		d := c14Down{Kind: rapid.SampledFrom([]string{"ok", "ok", "abandoned"}).Draw(t, "kind")}
+		d.Size = rapid.OneOf(rapid.IntRange(1, 2000), rapid.IntRange(1, 400000)).Draw(t, "size")
+		d.Chunk = rapid.SampledFrom([]int{100, 1000, 8000, 16000, 16384 - 256}).Draw(t, "chunk")
+		if d.Chunk == 100 && d.Size > 20000 {
+			d.Chunk = 4000
+		}
+		if rapid.IntRange(0, 2).Draw(t, "pad") == 0 {
+			d.Pad = rapid.SampledFrom([]int{1, 2, 100, 256}).Draw(t, "padlen")
+		}
+		d.Empty = rapid.IntRange(0, 3).Draw(t, "empty") == 0 && d.Pad > 0
+		total += d.Size
+		c.Downs = append(c.Downs, d)
+	}
+	c.Repeat = rapid.SampledFrom([]int{1, 1, 2, 4, 8}).Draw(t, "repeat")
+	for c.Repeat > 1 && total*c.Repeat > 6<<20 {
+		c.Repeat /= 2
+	}
+	return c
 }
